@@ -8,7 +8,10 @@ use std::{
     sync::Arc,
 };
 
-use fontdrasil::orchestration::{Access, AccessBuilder, Work};
+use fontdrasil::{
+    orchestration::{Access, AccessBuilder, Work},
+    types::GlyphName,
+};
 use fontir::orchestration::WorkId as FeWorkId;
 use write_fonts::{
     OtRound, dump_table,
@@ -33,6 +36,26 @@ struct MetricAndLimitWork {}
 
 pub fn create_metric_and_limit_work() -> Box<BeWork> {
     Box::new(MetricAndLimitWork {})
+}
+
+/// Round an advance width or height to the unsigned 16-bit value hmtx/vmtx can hold.
+///
+/// Fails, instead of saturating, for a negative or too large advance; see
+/// <https://github.com/googlefonts/ufo2ft/blob/2f11b0ff/Lib/ufo2ft/outlineCompiler.py#L741-L747>
+pub(crate) fn checked_advance(
+    glyph_name: &GlyphName,
+    what: &str,
+    value: f64,
+) -> Result<u16, Error> {
+    let rounded: f64 = value.ot_round();
+    if (0.0..=u16::MAX as f64).contains(&rounded) {
+        Ok(rounded as u16)
+    } else {
+        Err(Error::OutOfBounds {
+            what: format!("'{glyph_name}' {what}"),
+            value: value.to_string(),
+        })
+    }
 }
 
 /// A builder for aggregating metrics and calculating their limits, for
@@ -327,14 +350,13 @@ impl Work<Context, AnyWorkId, Error> for MetricAndLimitWork {
         let builder =
             glyph_order
                 .iter()
-                .fold(MetricsBuilder::default(), |mut builder, (_gid, gn)| {
+                .try_fold(MetricsBuilder::default(), |mut builder, (_gid, gn)| {
                     // https://github.com/googlefonts/ufo2ft/blob/2f11b0ff/Lib/ufo2ft/outlineCompiler.py#L741-L747
-                    let advance: u16 = context
-                        .ir
-                        .get_glyph(gn.clone())
-                        .default_instance()
-                        .width
-                        .ot_round();
+                    let advance = checked_advance(
+                        gn,
+                        "advance width",
+                        context.ir.get_glyph(gn.clone()).default_instance().width,
+                    )?;
 
                     let glyph = context.glyphs.get(&WorkId::GlyfFragment(gn.clone()).into());
 
@@ -345,8 +367,8 @@ impl Work<Context, AnyWorkId, Error> for MetricAndLimitWork {
                         .map(|bbox| bbox.x_max as i32 - bbox.x_min as i32);
 
                     builder.update(advance, side_bearing, bounds_advance);
-                    builder
-                });
+                    Ok::<_, Error>(builder)
+                })?;
 
         let metrics = builder.build();
 
@@ -458,6 +480,22 @@ mod tests {
                 glyph_limits.min_second_side_bearing
             )
         );
+    }
+
+    #[test]
+    fn advance_that_does_not_fit_is_an_error() {
+        let name = GlyphName::from("a");
+        assert_eq!(
+            checked_advance(&name, "advance width", 65535.4).unwrap(),
+            65535
+        );
+        assert_eq!(checked_advance(&name, "advance width", -0.4).unwrap(), 0);
+        for bad in [65535.5, 70000.0, -1.0, -10.0] {
+            assert!(matches!(
+                checked_advance(&name, "advance width", bad),
+                Err(Error::OutOfBounds { .. })
+            ));
+        }
     }
 
     #[test]
